@@ -335,7 +335,7 @@ def run_shard(spec, emit):
     cases = gen_cases(tier, seed)
     # long cases first so that they are spread
     mine = [c for i, c in enumerate(cases) if i % nshards == shard]
-    deadline = time.monotonic() + (90 if tier == "quick" else 2400)
+    deadline = time.monotonic() + (90 if tier == "quick" else 300)
     samples = 0
     for case in mine:
         if time.monotonic() > deadline:
